@@ -308,10 +308,18 @@ pub async fn random_scenario(
         }
         if p.evict && parked.is_empty() && verif::jobs_list().is_empty() && !tasks.is_empty() && rng.gen_bool(0.3) {
             w.evict(pid).await;
-            // the live dump is gone until the next access: act right away
-            if let Some(t) = w.last_tasks.iter().find(|t| t.1 == "act" && t.2 == "interrupted") {
-                let k = t.0.clone();
-                w.act(pid, &k, "complete", &json!({"ecode": "nil", "to": "nil"})).await;
+            // the live dump is gone until the next access: act right away - either answer an open
+            // interrupt, or touch the process with an action that is refused (unknown task), which
+            // reloads it and leaves everything open: what hangs off the open tasks (timeout rules,
+            // catches) must then work from the reloaded image
+            let open = w.last_tasks.iter().find(|t| t.1 == "act" && t.2 == "interrupted").map(|t| t.0.clone());
+            match open {
+                Some(k) if rng.gen_bool(0.5) => {
+                    w.act(pid, &k, "complete", &json!({"ecode": "nil", "to": "nil"})).await;
+                }
+                _ => {
+                    w.act(pid, &("zz".to_string(), 1), "skip", &json!({"ecode": "nil", "to": "nil"})).await;
+                }
             }
             continue;
         }
